@@ -178,6 +178,7 @@ package tars
 //@   requires c != nil
 //@   pure
 //@   ensures result == c.point
+//@   safety [C15]
 //
 // Send hands the encoded request to the transport and counts the send; it records no failure itself (the caller
 // does, once per failed call). The transport's Send is trusted to change nothing of the proxy's in-flight
@@ -187,6 +188,7 @@ package tars
 //@ func (*AdapterProxy).sendAdd
 //@   requires c != nil
 //@   modifies c.sendCount
+//@   safety [C15]
 //
 //@ func (*AdapterProxy).Send
 //@   requires c != nil && req != nil && c.servantProxy != nil && c.servantProxy.proto != nil && c.tarsClient != nil
@@ -197,9 +199,11 @@ package tars
 //@ func (*Message).End
 //@   requires m != nil
 //@   modifies m.EndTime
+//@   safety [C09]
 //@ func (*Message).Cost
 //@   requires m != nil
 //@   pure
+//@   safety [C09]
 //
 //@ func (*ServantProxy).doInvoke$1
 //@   requires s != nil && adp != nil && msg != nil && msg.Req != nil
@@ -269,6 +273,7 @@ package tars
 //@ func (*Message).Init
 //@   requires m != nil
 //@   modifies m.BeginTime
+//@   safety [C09]
 //
 //@ func (*ServantProxy).TarsInvoke
 //@   requires s != nil && s.manager != nil && s.comm != nil && s.comm.app != nil && ctx != nil && resp != nil
